@@ -48,12 +48,21 @@ class C14(Prop):
         for i in range(8 if quick else 120):
             c, a = combos[i % len(combos)]
             src = g.rand_call(); dst = g.rand_call() if rng.random() < 0.7 else ""
-            keyups = rng.choice([1, 1, 2, 3]); frames = rng.choice([0, 1, 2, 4]); extra = rng.choice([0, 0, 1, 160, 319])
-            scen.append((src, dst, keyups, frames, extra, c, a,
-                         f"modrun {rng.randrange(1, 10**6)} {c} {a} {keyups} {frames} {extra} {len(src)} {codes(src)} {len(dst)} {codes(dst)}".replace("  ", " ")))
+            keyups = rng.choice([1, 1, 2, 3])
+            plan = [(rng.choice([0, 1, 2, 4, 6, 7, 13]), rng.choice([0, 0, 1, 159, 160, 319, rng.randrange(320)])) for _ in range(keyups)]
+            if i == 1:
+                keyups, plan = 1, [(7, 3)]                      # more than six stream frames: every LICH fragment is sent
+            if i == 2:
+                keyups, plan = 2, [(1, 200), (0, 12)]           # a short key-up after a longer partial block
+            if i == 3:
+                keyups, plan = 3, [(0, 319), (0, 0), (2, 161)]
+            frames, extra = plan[0]
+            scen.append((src, dst, keyups, plan, extra, c, a,
+                         (f"modrun {rng.randrange(1, 10**6)} {c} {a} {keyups} {frames} {extra} {len(src)} {codes(src)} {len(dst)} {codes(dst)} ".replace("  ", " ")
+                          + " ".join(f"{f} {e}" for f, e in plan)).strip()))
         out = ctx.run_impl(exe, [s[-1] for s in scen], "modulator", timeout=1800)
         for (src, dst, keyups, frames, extra, c, a, ln), o in zip(scen, out):
-            ctx.count(ln, nontrivial=frames > 0)
+            ctx.count(ln, nontrivial=any(f > 0 for f, _ in frames))
             ctx.stat(f"consumer{c}:audio{a}")
             if " | " not in o:
                 continue
@@ -65,20 +74,23 @@ class C14(Prop):
                 bad = bad or f"modulator did not end IDLE cleanly (state {st}, exception {exc})"
             if bad:
                 key = bad.split(":")[0][:50]
-                ctx.violate(f"modulator:{key}", f"M17Modulator(src={src!r}, dst={dst!r}), {keyups} key-up(s) x {frames} frames + {extra} samples, consumer mode {c}: {bad}",
+                ctx.violate(f"modulator:{key}", f"M17Modulator(src={src!r}, dst={dst!r}), {keyups} key-up(s) with (full blocks, extra samples) = {frames}, consumer mode {c}: {bad}",
                             {"stream": "modulator", "ops": [ln], "output_bytes": len(data)})
         ctx.sample({"op": scen[0][-1], "reply": out[0][:120] + " ..."})
 
     def judge(self, ctx, dec, data, src, dst, keyups, frames, extra):
         """grammar + specification re-encoding; returns a description of the first problem or None"""
-        per = 48 + 48 + 48 * (frames + 1)
-        if len(data) != keyups * per:
-            return f"stream length: {len(data)} bytes, expected {keyups} x (preamble 48 + LSF 48 + {frames + 1} frames x 48) = {keyups * per} (bytes lost or duplicated)"
+        plan = frames
+        pers = [48 + 48 + 48 * (f + 1) for f, _ in plan]
+        offs = [sum(pers[:k]) for k in range(keyups)]
+        if len(data) != sum(pers):
+            return f"stream length: {len(data)} bytes, expected sum over key-ups of (preamble 48 + LSF 48 + (blocks + 1) x 48) = {sum(pers)} (bytes lost or duplicated)"
         lsf = S.make_lsf(dst, src, 0x0005, bytes(14), 0)
         want_lsf_frame = bytes([0x55, 0xF7]) + S.pack(S.lsf_frame_bits(lsf))
         lines = ["dec_new"]
         for k in range(keyups):
-            seg = data[k * per:(k + 1) * per]
+            frames = plan[k][0]
+            seg = data[offs[k]:offs[k] + pers[k]]
             if seg[:48] != bytes([0x77] * 48):
                 return "preamble: not 48 bytes of 0x77"
             lf = seg[48:96]
@@ -94,7 +106,8 @@ class C14(Prop):
         i = 1
         prev_last = None
         for k in range(keyups):
-            seg = data[k * per:(k + 1) * per]
+            frames, extra = plan[k]
+            seg = data[offs[k]:offs[k] + pers[k]]
             r = decgen.parse_reply(rep[i]); i += 1
             if not r or not r["calls"] or r["calls"][0]["type"] != 0:
                 return "LSF frame: does not decode to a CRC-valid link setup frame"
@@ -133,6 +146,18 @@ class C14(Prop):
                         return f"audio continuity: frame {f} starts at sample {a1}, previous frame ended at {prev_last} (audio lost, duplicated or reordered)"
                     prev_last = l2
                 else:
+                    # final frame: the samples collected since the last full block (extra + the one that carried ptt_off), then zeros —
+                    # nothing older may be left in it
+                    n = extra + 1
+                    v0 = prev_last + 1 if (frames > 0 and prev_last is not None) else a1
+                    s1 = (pl[6] << 24) | (pl[7] << 16) | (pl[8] << 8) | pl[9]
+                    s2 = (pl[14] << 24) | (pl[15] << 16) | (pl[16] << 8) | pl[17]
+                    n1, n2 = min(n, 160), max(0, n - 160)
+                    want1 = (v0, v0 + 159 if n1 == 160 else 0, n1 * v0 + n1 * (n1 - 1) // 2)
+                    want2 = ((v0 + 160, v0 + 319 if n2 == 160 else 0, n2 * (v0 + 160) + n2 * (n2 - 1) // 2) if n2 else (0, 0, 0))
+                    if (a1, l1, s1) != want1 or (a2, l2, s2) != want2:
+                        return (f"final frame audio: key-up {k} ended with {n} fresh samples starting at {v0}; the end-of-stream frame's audio fingerprint "
+                                f"(first,last,sum per half) is {(a1, l1, s1)},{(a2, l2, s2)}, expected {want1},{want2} (stale or missing audio)")
                     prev_last = None
         return None
 
